@@ -7,6 +7,7 @@
 -/
 import PintModel.Model.Registry
 import PintModel.Gen.DefaultRegistry
+import PintModel.Proofs.ParseNameLemmas
 
 namespace Pint.Props.C08
 open Pint Pint.Registry
@@ -123,5 +124,61 @@ set_option maxRecDepth 100000 in
 example : (match Gen.defaultRegistry.resolve "millidegree_Celsius" with
     | .error .offsetCalc => true
     | _ => false) = true := by decide +kernel
+
+/-! ### the candidate readings (`parse_unit_name`) -/
+
+open Pint.Proofs.ParseName in
+/-- **soundness of a reading**: a candidate (prefix, unit, suffix) re-spells the input as a registered prefix
+    spelling ++ a registered unit spelling ++ a registered suffix, with the single-letter-stem guard and the
+    "units registered on the fly are not stems" guard (the registry has no unit spelled "") -/
+theorem C08_reading_sound {R : Registry} {s p u x : String} (hempty : R.units.find? "" = none)
+    (h : (p, u, x) ∈ R.yieldTriplets s true) :
+    ∃ (pk : String) (pd : PrefixDef) (uk : String) (ud : UnitDef) (sk : String),
+      (pk, pd) ∈ R.prefixes ∧ pd.name = p ∧
+      R.units.find? uk = some ud ∧ (uk, ud) ∈ R.units ∧ ud.name = u ∧
+      (sk, x) ∈ R.suffixes ∧
+      s = pk ++ uk ++ sk ∧
+      s.toList = pk.toList ++ uk.toList ++ sk.toList ∧
+      (sk ≠ "" → uk.length ≠ 1) ∧
+      (pk ≠ "" → R.prefixed.contains uk = false) :=
+  yieldTriplets_sound_concat hempty h
+
+open Pint.Proofs.ParseName in
+/-- **completeness**: every such decomposition of the input is among the candidate readings -/
+theorem C08_reading_complete {R : Registry} {s pk uk sk x : String} {pd : PrefixDef} {ud : UnitDef}
+    (hp : (pk, pd) ∈ R.prefixes) (hs : (sk, x) ∈ R.suffixes) (hu : R.units.find? uk = some ud)
+    (hcat : s = pk ++ uk ++ sk) (hg1 : sk ≠ "" → uk.length ≠ 1)
+    (hg2 : pk ≠ "" → R.prefixed.contains uk = false) :
+    (pd.name, ud.name, x) ∈ R.yieldTriplets s true :=
+  yieldTriplets_complete hp hs hu hcat hg1 hg2
+
+open Pint.Proofs.ParseName in
+/-- de-duplication only removes a plain reading ("", n, "") in favour of a prefixed reading of the same name -/
+theorem C08_dedup {n : String} {c : List (String × String × String)} (h : ("", n, "") ∈ c) :
+    ("", n, "") ∉ dedupCandidates c ↔ ∃ p u x, (p, u, x) ∈ c ∧ p ≠ "" ∧ p ++ u = n :=
+  dedupCandidates_plain_removed_iff h
+
+open Pint.Proofs.ParseName in
+theorem C08_dedup_keeps {p u x : String} {c : List (String × String × String)}
+    (hne : p ≠ "" ∨ x ≠ "") (h : (p, u, x) ∈ c) : (p, u, x) ∈ dedupCandidates c :=
+  dedupCandidates_keeps_of_ne hne h
+
+open Pint.Proofs.ParseName in
+/-- `get_name` uses the first reading: deterministic, and it is one of the candidate readings -/
+theorem C08_getName_first {R : Registry} {s p u x : String} {cs : Option Bool}
+    {rest : List (String × String × String)}
+    (hf : R.units.find? s = none) (hs : s ≠ "dimensionless")
+    (hp : R.parseUnitName s cs = (p, u, x) :: rest) :
+    R.getName s cs =
+      if p = "" then .ok (u, R)
+      else match R.prefixedDef p u cs with
+        | .error e => .error e
+        | .ok d => .ok (p ++ u, { R with units := R.units.insert (p ++ u) d,
+                                          prefixed := if R.prefixed.contains (p ++ u) then R.prefixed
+                                                      else R.prefixed ++ [p ++ u] }) :=
+  getName_first hf hs hp
+
+/-- the bundled registry has no unit spelled "" (hypothesis of `C08_reading_sound`) -/
+theorem C08_default_no_empty_unit : Gen.defaultRegistry.units.find? "" = none := by decide +kernel
 
 end Pint.Props.C08
